@@ -348,7 +348,7 @@ def rule_r3(chk, p, t):
             ok = cfg.must_pass(u.id, via_edges=[(conds[0].id, True)]) and unparse(u.ast.value).endswith("[:3]")
             # inside the per-state loop and applied to the derivative / perturbation of the same state
             loops = [n for n in cfg.nodes if n.kind == "loop"]
-            ok = ok and loops and u.id in cfg.reachable(loops[0].id, blocked_edges=[(loops[0].id, False)])
+            ok = ok and loops and any(any(x is u.ast for x in ast.walk(lp.ast)) for lp in loops)
             tgt = unparse(u.ast.target)
             ok = ok and (tgt.startswith("derivative[jj + half") or tgt == "a_perturbations")
             if ok:
